@@ -177,4 +177,10 @@ def build(ctx):
         units.append(Unit('c17_mapper_partition', 'intwp', 'specs/c17_mapper.c', 'c17_mapper_partition', expect=[r'assertion\.5'], **common))
         units.append(Unit('parallel_for_staticImpl.derive', 'intwp', 'specs/c17_mapper.c', 'psi_derive',
                           expect=[r'postcondition\.5'], replay=c17.replay_args('derive'), **common))
+    # static path: which chunk index each scheduled task and the caller run (specs/c14_states.c): remap exact, injective, covering
+    sp = importlib.util.spec_from_file_location('c14mod', os.path.join(os.path.dirname(__file__), 'c14.py'))
+    c14 = importlib.util.module_from_spec(sp)
+    sp.loader.exec_module(c14)
+    c14.static_pieces(ctx)
+    units += [u for u in c14.static_units(ctx, insts) if u.function != 'initStates_size']
     return units
